@@ -18,14 +18,14 @@ RULE = (
     "zero-padded content) and is a whole number of blocks; (b) read_file with the key returns a component flagged encrypted with blob[:declared] == "
     "content[:declared]; (c) needle scan of the written binary for session key, security code, customer key and every 8-byte plaintext window with 8 "
     "distinct byte values that does not also occur in the file's public parts; (d) with the cipher un-registered or raising, writing raises and the stream holds no plaintext window. "
-    "(e) repeated use: the same component object in a second file under another key, the same file object written again under another key, the component's content replaced through its attributes and the file written again - each write stores the ciphertext of the content as it is then under the key of that write. "
+    "In a third of the generated cases a SECOND session-key component sits directly before or after the first: each is stored as the ciphertext of its own content from the zero IV. (e) repeated use: the same component object in a second file under another key, the same file object written again under another key, the component's content replaced through its attributes and the file written again - each write stores the ciphertext of the content as it is then under the key of that write. "
     "Non-trivial = content length not a multiple of 16, or trailing 00 run, or all-zero; distinct by case hash."
 )
 ASSUMPTIONS = [
     "secrecy is decided functionally (stored bytes equal the reference ciphertext; no secret needle occurs); cryptographic strength of zero-IV CBC is out of scope",
     "encrypted components are compared on the declared length only (stored/returned blob may be zero-padded)",
 ]
-REQUIRED_CLASSES = ["rewrite-after-content-replaced", "len%16!=0", "trailing00>=1", "all-zero", "framing=bec2", "framing=bf3", "via=set_config", "cipher=unregistered", "cipher=raising", "trailing00>=16", "has-needles", "retry-after-failure", "pre-existing-plain-config", "flag-without-enc-tag", "content>4KiB", "readfail=ValueError", "readfail=short-key"]
+REQUIRED_CLASSES = ["two-adjacent-encrypted-components", "rewrite-after-content-replaced", "len%16!=0", "trailing00>=1", "all-zero", "framing=bec2", "framing=bf3", "via=set_config", "cipher=unregistered", "cipher=raising", "trailing00>=16", "has-needles", "retry-after-failure", "pre-existing-plain-config", "flag-without-enc-tag", "content>4KiB", "readfail=ValueError", "readfail=short-key"]
 
 ENC_DESC = [(0xC3, b"\x03"), (0xC2, b"\x02"), (0xC1, b"\x03"), (0xC5, b"\x01")]
 # "marked for session-key encryption" is the component's flag; the ENC tag normally accompanies it, but the object model does not tie them:
@@ -77,6 +77,11 @@ def _build(case):
     else:
         comp = sut.Bf3Component(dict(DESC_KINDS[case.get("desc_kind", "enc")]), case["content"], case.get("actual_len"), encrypt_by_session_key=True)
         f.components.insert(case.get("pos", 0) % (len(plain) + 1), comp)
+    if case.get("twin") is not None:
+        # a SECOND session-key component directly next to the first (two configurations / encrypted images in one file)
+        twin = sut.Bf3Component(dict(ENC_DESC), case["twin"], None, encrypt_by_session_key=True)
+        at = next(i for i, c in enumerate(f.components) if c is comp)
+        f.components.insert(at + (1 if case.get("twin_after") else 0), twin)
     return f, comp
 
 
@@ -152,6 +157,12 @@ def check(case, rec):
             parsed[idx]["stored"][:32].hex(), want_ct[:32].hex()))
     if parsed[idx]["actual_len"] != declared:
         raise Violation("declared length %d stored as %d" % (declared, parsed[idx]["actual_len"]))
+    if case.get("twin") is not None:
+        rec.cls("two-adjacent-encrypted-components")
+        tidx = idx + 1 if case.get("twin_after") else idx - 1
+        if parsed[tidx]["stored"] != ossl.cbc_encrypt(key, ossl.zeropad(case["twin"])):
+            raise Violation("the %s of two ADJACENT session-key components is not stored as AES-128-CBC(key, IV=0, zeropad(content)) of its own content: stored %s.. expected %s.." % (
+                "second" if case.get("twin_after") else "first", parsed[tidx]["stored"][:32].hex(), ossl.cbc_encrypt(key, ossl.zeropad(case["twin"]))[:32].hex()))
     # (c) needles.  A window of the secret content is a needle only if it does NOT also occur in the CONTROL file: the same file
     # serialised by the independent model with the encrypted content replaced by a constant - everything public (directory framing,
     # tag TLVs, plain payloads, header) is in the control, so an occurrence in the real file can only stem from the secret content.
@@ -392,6 +403,7 @@ def strat_read_failure(tier):
 
 def _case_common(tier):
     return dict(
+        twin=st.one_of(st.none(), st.none(), S.payload(80)), twin_after=st.booleans(),
         key=S.session_key(allow_default=False),
         framing=st.sampled_from(["bf3", "bec2"]),
         blocks=S.auth_blocks(allow_default_ecc=False),
